@@ -81,6 +81,7 @@ struct th {
 	int *a_addr;
 	int in_round;
 	const char *op;
+	const volatile void *lock_addr;
 	const char *at;           /* nsync function of the last atomic step outside the semaphore files */
 	unsigned op_sleeps, op_steps;
 	int64_t op_deadline_ns;
@@ -385,6 +386,7 @@ static int pick (int forced_switch) {
 	   not even a thread waiting for quiescence, can run */
 	int far = best >= 0 && T[best].deadline_ns - vclock_ns > 3600ll * 1000000000ll;
 	if (best >= 0 && far && n == 0) { for (int i = 0; i < NT; i++) if (T[i].state == ST_WAITQ) { T[i].state = ST_RUN; return (i); } }
+	if (n == 0 && best >= 0 && rt_scen.idle_check) rt_scen.idle_check ();
 	if (best >= 0 && (n == 0 || (!far && (force_fire_next || xs (&sched_rng) % 1000000u < (uint64_t) p_fire_ppm)))) {
 		force_fire_next = 0;
 		if (vclock_ns < T[best].deadline_ns) vclock_ns = T[best].deadline_ns;
@@ -538,7 +540,7 @@ static void *a_monitor (void *arg) {
 /* shim hooks */
 void nsync_verif_step_ (const char *file, int line, const char *func, int op, const volatile void *addr) {
 	if (me < 0) return;
-	if (strstr (file, "semaphore") == NULL) T[me].at = func;
+	if (strstr (file, "semaphore") == NULL) { T[me].at = func; if (op <= 4 && func[9] == 'l' && strcmp (func, "nsync_mu_lock_slow_") == 0) T[me].lock_addr = addr; }
 	int s = site_of (file, line);
 	__atomic_fetch_add (&sites[s].hits, 1, __ATOMIC_RELAXED);
 	if (mode_b) {
@@ -601,6 +603,8 @@ int rt_thread_in_wait (int tid) { return (mode_b ? T[tid].state == ST_BLOCKED : 
 int rt_thread_done (int tid) { return (T[tid].state == ST_DONE); }
 const char *rt_thread_op (int tid) { return (T[tid].op ? T[tid].op : ""); }
 const char *rt_thread_at (int tid) { return (T[tid].at ? T[tid].at : ""); }
+const volatile void *rt_thread_lock_addr (int tid) { return (T[tid].lock_addr); }
+int rt_thread_timed (int tid) { return (T[tid].timed); }
 
 /* ------------------------------------------------------------------------------------ */
 /* wrappers: futex */
